@@ -53,9 +53,12 @@ def mkPn (v : String) (x : Nat) : Option PacketNumber :=
 transliteration): requested largest and delay, fits, well-formed, covers only tracked received numbers. -/
 def frameRelOk (s : State) (largest delay cap : Nat) (f : AckFrame) : Bool :=
   f.largest == largest && f.delay == delay && decide (f.size ≤ cap) &&
-  match f.iter with
-  | none => false
-  | some rs => (pnsDesc rs).all fun p => p == largest || s.has p
+  -- the property constrains the enumerated numbers only when the requested largest was received (caller contract)
+  (if s.has largest || (decide (largest < s.offset) && s.rcvdLog.contains largest) then
+    match f.iter with
+    | none => false
+    | some rs => (pnsDesc rs).all fun p => p == largest || s.has p
+   else true)
 
 def stepR (s : State) (op obs : List String) : State × Option String :=
   let theirs := " ".intercalate obs
